@@ -266,9 +266,13 @@ def main():
             ncols = rng.randint(1, 4)
             names = rng.sample(["index", "temperature", "site", "depth", "lat", "name"], ncols)
             kinds = [rng.choice(["num", "num", "str"]) for _ in names]
-            nrows = rng.choice([0, 1, 2, 4, 7])
+            nrows = rng.choice([0, 1, 2, 4, 7, 7, 60])      # 60 rows: a file longer than any sample a reader might sniff
             rows = []
-            for _ in range(nrows):
+            for ri in range(nrows):
+                if nrows == 60 and ri < 50:
+                    # plain cells first, the awkward ones (embedded quotes, commas, line breaks) only near the end of the file
+                    rows.append(tuple(float(ri) + 0.5 if k == "num" else "plain%d" % ri for k in kinds))
+                    continue
                 rows.append(tuple(rng.choice([0, 1, -3, 2.5, 10, 15.25, 1e-3, 12345678]) if k == "num" else
                                   rng.choice(["", "a", "Diamond St", "x,y", 'say "hi"', " lead", "7", "two\nlines", "para one\n\npara two",
                                               " \n x"]) for k in kinds))
